@@ -61,6 +61,7 @@ struct ZSTD_seekable_CStream_s {
     U32 maxFrameSize;
 
     int writingSeekTable;
+    int frameEndPending;   /* ZSTD_seekable_endFrame() has not finished flushing the current frame */
 };
 
 static size_t ZSTD_seekable_frameLog_allocVec(ZSTD_frameLog* fl)
@@ -143,6 +144,7 @@ size_t ZSTD_seekable_initCStream(ZSTD_seekable_CStream* zcs,
     zcs->framelog.size = 0;
     zcs->frameCSize = 0;
     zcs->frameDSize = 0;
+    zcs->frameEndPending = 0;
 
     /* make sure maxFrameSize has a reasonable value */
     if (maxFrameSize > ZSTD_SEEKABLE_MAX_FRAME_DECOMPRESSED_SIZE) {
@@ -203,7 +205,11 @@ size_t ZSTD_seekable_endFrame(ZSTD_seekable_CStream* zcs, ZSTD_outBuffer* output
     zcs->frameCSize += (U32)(output->pos - prevOutPos);
 
     /* need to flush before doing the rest */
-    if (ret) return ret;
+    if (ret) {
+        if (!ZSTD_isError(ret)) zcs->frameEndPending = 1;
+        return ret;
+    }
+    zcs->frameEndPending = 0;
 
     /* frame done */
 
@@ -229,6 +235,13 @@ size_t ZSTD_seekable_compressStream(ZSTD_seekable_CStream* zcs, ZSTD_outBuffer* 
 {
     const BYTE* const inBase = (const BYTE*) input->src + input->pos;
     size_t inLen = input->size - input->pos;
+
+    if (zcs->frameEndPending) {
+        /* the end of the current frame is still to be flushed : complete it, and log the frame,
+         * before any input goes into the next one */
+        size_t const ret = ZSTD_seekable_endFrame(zcs, output);
+        if (ret) return ret;   /* error, or more room needed : no input consumed */
+    }
 
     assert(zcs->maxFrameSize < INT_MAX);
     ZSTD_CCtx_setParameter(zcs->cstream, ZSTD_c_srcSizeHint, (int)zcs->maxFrameSize);
